@@ -42,7 +42,20 @@ class Router:
     def queues(self) -> frozenset[str]:
         return frozenset(self.topics_by_queue.keys())
 
+    def _forget_topic(self, name: str) -> None:
+        # an actor that is about to be overridden stops being served from its previous queue
+        previous = self.actors.get(name)
+        if previous is None:
+            return
+        topics = self.topics_by_queue.get(previous.queue)
+        if topics is not None:
+            topics.discard(name)
+            if not topics:
+                del self.topics_by_queue[previous.queue]
+
     def include_router(self, router: Router) -> None:
+        for name in router.actors:
+            self._forget_topic(name)
         self.actors.update(router.actors)
         for queue_name, topics in router.topics_by_queue.items():
             self.topics_by_queue[queue_name].update(topics)
@@ -136,6 +149,7 @@ class Router:
                 "followed by letters, digits, dashes or underscores.",
             )
 
+        self._forget_topic(a.name)
         self.actors[a.name] = a
         self.topics_by_queue[a.queue].add(a.name)
         return fn
